@@ -15,7 +15,7 @@ EXTENDS Strategy, Json, IOUtils
 MaxPairs == atoi(IOEnv.MAXPAIRS)
 MaxEntries == atoi(IOEnv.MAXENTRIES)
 
-\* three games: names are shared between the players on purpose
+\* four games: names are shared between the players on purpose
 Games == <<
   << [multi |-> << [name |-> "m1", acts |-> <<"a1", "a2">>] >>,
       single |-> << [name |-> "s1", act |-> "only"] >>],
@@ -29,6 +29,11 @@ Games == <<
   << [multi |-> << [name |-> "m1", acts |-> <<"a1", "a2">>] >>,
       single |-> <<>>],
      [multi |-> <<>>,
+      single |-> <<>>] >>,
+  \* two single-action infosets and nothing else: mentioning one of them twice does not cover the other
+  << [multi |-> <<>>,
+      single |-> << [name |-> "s1", act |-> "only"], [name |-> "s2", act |-> "only"] >>],
+     [multi |-> << [name |-> "m1", acts |-> <<"a1", "a2">>] >>,
       single |-> <<>>] >>
 >>
 
@@ -60,7 +65,7 @@ NumPairs == SumSeq([n \in 1..Len(lists[cur]) |-> Len(lists[cur][n].acts)])
 NumEntries == Len(lists[cur])
 
 Init == /\ g \in 1..Len(Games)
-        /\ scale \in IF g = 3 THEN {"one"}
+        /\ scale \in IF g \in {3, 4} THEN {"one"}
                      ELSE IF Slim THEN {"one", "max"} \cup (IF g = 1 THEN {"near-third"} ELSE {"tiny"})
                      ELSE {"one", "tiny", "huge", "max", "near-half", "near-third"}
         /\ cur \in 1..2
